@@ -32,6 +32,10 @@ Fixpoint read_tokens (ph : rd_phase) (acc : bytes) (toks : list tok) (tl : tail)
 (* SETTINGS never belongs on a request stream; its contents are not looked at *)
 Definition no_settings_check : bytes -> option settings_err := fun _ => None.
 
-Definition rfc_stream_reading (flat : bytes) : list ritem :=
-  let '(toks, tl) := frame_outcome no_settings_check flat Finished in
+(* [scheck]: the verdict on a SETTINGS payload (C13's subject); it cannot matter for a well-formed request stream,
+   which carries no SETTINGS frame, and is a parameter so that any verdict function can be plugged in *)
+Definition rfc_stream_reading_with (scheck : bytes -> option settings_err) (flat : bytes) : list ritem :=
+  let '(toks, tl) := frame_outcome scheck flat Finished in
   read_tokens RdFirst [] toks tl.
+
+Definition rfc_stream_reading (flat : bytes) : list ritem := rfc_stream_reading_with no_settings_check flat.
